@@ -435,6 +435,15 @@ def run_case(case):
             drop(rmod)
         # ---- run
         ret_raw = codec.decode(case.get("ret_raw")) if "ret_raw" in case else None
+        prior = case.get("prior")
+        if prior:
+            mod.REC.clear()
+            mod.REC.update(entered=False, ret=ret_raw, yields=[codec.decode(y) for y in yields])
+            try:
+                pargs, pkw = spell_call(sig, prior["assign"], prior.get("spell") or {})
+                drive(f, pargs, pkw, wrapper, script)
+            except HarnessError:
+                pass
         mod.REC.clear()
         mod.REC.update(entered=False, ret=ret_raw, yields=[codec.decode(y) for y in yields])
         out = drive(f, args, kw, wrapper, script)
@@ -612,45 +621,52 @@ def cases(draw):
         sig["send_t"] = draw(st.sampled_from(["none", "int", "str"]))
         sig["eager"] = draw(st.booleans())
     # logical assignment
-    assign, spell = {}, {}
-    keyword_mode = False
-    for p in params:
-        n, k = p["name"], p["kind"]
-        if k == "varargs":
-            if not keyword_mode:
-                assign[n] = draw(st.lists(st.sampled_from(VALS[p["ann"]]), max_size=3))
-        elif k == "varkw":
-            keys = draw(st.lists(st.sampled_from(["x1", "x2", "zz"] + [q["name"] for q in params if q["kind"] == "posonly"]), max_size=2, unique=True))
-            assign[n] = [[key, draw(st.sampled_from(VALS[p["ann"]]))] for key in keys]
-        else:
-            provide = not p.get("default") or draw(st.booleans())
-            if k in ("posonly", "pos") and keyword_mode and k == "posonly":
-                provide = False if p.get("default") else provide
-            if not provide:
-                if k in ("posonly", "pos"):
-                    keyword_mode = True
-                continue
-            pool = VALS[p["ann"]]
-            v = draw(st.sampled_from(pool[:3] + pool[:3] + pool))
-            assign[n] = v
-            if k == "pos":
-                how = "position" if not keyword_mode and draw(st.booleans()) else draw(st.sampled_from(["name", "name", "alias", "case"]))
-                if p.get("priv") and how != "position" and (has_kw or not p.get("default")):
-                    # (by name a private parameter is documented as ignored: only meaningful with a default to stand)
-                    how = "position"
-                    if keyword_mode:
+    def draw_assignment():
+        assign, spell = {}, {}
+        keyword_mode = False
+        for p in params:
+            n, k = p["name"], p["kind"]
+            if k == "varargs":
+                if not keyword_mode:
+                    assign[n] = draw(st.lists(st.sampled_from(VALS[p["ann"]]), max_size=3))
+            elif k == "varkw":
+                keys = draw(st.lists(st.sampled_from(["x1", "x2", "zz"] + [q["name"] for q in params if q["kind"] == "posonly"]), max_size=2, unique=True))
+                assign[n] = [[key, draw(st.sampled_from(VALS[p["ann"]]))] for key in keys]
+            else:
+                provide = not p.get("default") or draw(st.booleans())
+                if k in ("posonly", "pos") and keyword_mode and k == "posonly":
+                    provide = False if p.get("default") else provide
+                if not provide:
+                    if k in ("posonly", "pos"):
+                        keyword_mode = True
+                    continue
+                pool = VALS[p["ann"]]
+                v = draw(st.sampled_from(pool[:3] + pool[:3] + pool))
+                assign[n] = v
+                if k == "pos":
+                    how = "position" if not keyword_mode and draw(st.booleans()) else draw(st.sampled_from(["name", "name", "alias", "case"]))
+                    if p.get("priv") and how != "position" and (has_kw or not p.get("default")):
+                        # (by name a private parameter is documented as ignored: only meaningful with a default to stand)
+                        how = "position"
+                        if keyword_mode:
+                            del assign[n]
+                            continue
+                    if how != "position":
+                        keyword_mode = True
+                    spell[n] = how
+                elif k == "kwonly":
+                    spell[n] = draw(st.sampled_from(["name", "name", "alias", "case"]))
+                elif keyword_mode:
+                    # a positional-only parameter after a gap cannot be passed: drop it if it has a default, else regenerate
+                    if p.get("default"):
                         del assign[n]
-                        continue
-                if how != "position":
-                    keyword_mode = True
-                spell[n] = how
-            elif k == "kwonly":
-                spell[n] = draw(st.sampled_from(["name", "name", "alias", "case"]))
-            elif keyword_mode:
-                # a positional-only parameter after a gap cannot be passed: drop it if it has a default, else regenerate
-                if p.get("default"):
-                    del assign[n]
+        return assign, spell
+    assign, spell = draw_assignment()
     case = {"sig": sig, "assign": assign, "spell": spell}
+    if draw(st.sampled_from([False, False, True])):
+        # an earlier call of the same decorated function (valid or not): what it leaves behind must not reach the judged call
+        pa, ps = draw_assignment()
+        case["prior"] = {"assign": pa, "spell": ps}
     rpool = {"int": [3, "4", "x"], "pos": [2, 0, "5"], "str": ["r", 9], "list": [{"t": "list", "v": [1, "2"]}, "x"], "data": [{"t": "dict", "v": [["n", "1"]]}, {"t": "dict", "v": []}], None: [1, "z", None], "null": [None, None, 5, "null", ""]}
     case["ret_raw"] = draw(st.sampled_from(rpool[sig["ret"]]))
     if wrapper in ("gen", "asyncgen"):
